@@ -10,7 +10,7 @@ PID = "C10"
 def cfgs(tier):
     c = [(2, 1, 0), (2, 1, 1), (2, 1, 2), (3, 1, 2)]
     if tier == "thorough":
-        c += [(2, 2, 0), (3, 2, 0), (3, 2, 1), (3, 2, 2), (2, 2, 2), (3, 3, 0)]
+        c += [(2, 2, 0), (2, 2, 1), (2, 2, 2), (4, 1, 0), (4, 1, 2)]   # 3x2 and 3x3 with symbolic pivoting exceed 15 min per configuration (probed): outside
     return c
 
 
@@ -87,7 +87,7 @@ def job_ldlt(cf, cfall, tier):
         try:
             with T.time_budget(30):
                 v = solver.check_identity(T.nf(T.Sub(lhs2, rhs2)), pc=p.pc, assumptions=asm, timeout_ms=20000)
-        except T.PolyTooBig:
+        except (T.PolyTooBig, MemoryError):
             v = solver.Verdict("undecided", "budget")
         name = "%s/path%d/dphi" % (key, pi)
         if v.status == "holds":
@@ -145,7 +145,7 @@ def main(tier):
     cf = cfgs(tier)
     check.run_jobs([(_compile, (cf, tier))])
     jobs = [(job_ldlt, (c, cf, tier)) for c in cf] + [(job_trust, (1, cf, tier))] + ([(job_trust, (2, cf, tier))] if tier == 'thorough' else []) + [ (job_colnorm, (0, cf, tier)), (job_colnorm, (1, cf, tier))]
-    run.extend(check.run_jobs(jobs, timeout=1200 if tier == "quick" else 7200))
+    run.extend(check.run_jobs(jobs, timeout=1200 if tier == "quick" else 3000))
     run.bounds += ["(rows, cols, storage 0=static 1=dynamic 2=sparse): %s ; J, r fully symbolic (rank-deficient J included), d >= 1e-6 (the clamp minimize applies), lambda, Delta in [1e-6, 1e6]" % cf]
     run.assumptions += ["layer R: exact arithmetic; the 1e-8 backward error, the cond<=1e8 dense/sparse agreement and sizes up to 40x40 are floating-point statements outside the claim",
                         "Eigen's pivoting LDLT is executed symbolically: every pivot order is a path"]
